@@ -180,6 +180,52 @@ def late_label_spec(rng):
     spec["features"] = sorted(feats)
     return spec, names
 
+def dup_rule_spec(rng):
+    """a grammar in which a production occurs TWICE -- as two equal-by-value rules (explicit node / edge ids: HRGRule
+    equality is by ids and content) or as the same HRGRule object registered twice (spec['dup_objects']) -- and is small
+    enough to stay in one bag (not split); other rules of the grammar are split.  The sum-product counts it twice."""
+    dom = rng.choice([2, 2, 3])
+    S, A, T_UN, T_BIN, T_TERN, T_NULL = 0, 1, 2, 3, 4, 5
+    elabels = [dict(term=False, type=[]), dict(term=False, type=[0]), dict(term=True, type=[0]),
+               dict(term=True, type=[0, 0]), dict(term=True, type=[0, 0, 0]), dict(term=True, type=[])]
+    def small(lhs):
+        ar = len(elabels[lhs]["type"])
+        kind = rng.choice(["one", "two", "three", "nullary"] if ar == 0 else ["one", "two", "three"])
+        if kind == "one": nodes, es = [0], [(T_UN, [0])] * rng.choice([1, 2])
+        elif kind == "two": nodes, es = [0, 0], [(T_BIN, [0, 1])] + ([(T_UN, [rng.randrange(2)])] if rng.random() < 0.5 else [])
+        elif kind == "three": nodes, es = [0, 0, 0], [(T_TERN, [0, 1, 2])] + ([(T_BIN, [2, 0])] if rng.random() < 0.5 else [])
+        else: nodes, es = [], [(T_NULL, [])]
+        if lhs == S and nodes and rng.random() < 0.5: es = es + [(A, [rng.randrange(len(nodes))])]
+        ext = [rng.randrange(len(nodes))] if ar else []
+        return dict(lhs=lhs, nodes=list(nodes), edges=list(es), ext=ext)
+    def path(lhs):
+        n = rng.randint(4, 5); vs = list(range(n)); rng.shuffle(vs)
+        es = [(T_BIN, [a, b]) for a, b in zip(vs, vs[1:])]
+        if lhs == S and rng.random() < 0.6: es.append((A, [rng.randrange(n)]))
+        ar = len(elabels[lhs]["type"])
+        return dict(lhs=lhs, nodes=[0] * n, edges=es, ext=[rng.randrange(n)] if ar else [])
+    mode = rng.choice(["value", "object"])
+    which = rng.choice(["S", "A", "both"])
+    s_rules = [small(S)]; a_rules = [small(A)]
+    if rng.random() < 0.7: s_rules.insert(rng.randrange(2), path(S))
+    if rng.random() < 0.4: a_rules.insert(rng.randrange(2), path(A))
+    if not any(l == A for r in s_rules for l, _ in r["edges"]): s_rules[0]["edges"].append((A, [0])) if s_rules[0]["nodes"] else s_rules.append(dict(lhs=S, nodes=[0], edges=[(A, [0])], ext=[]))
+    rules = s_rules + a_rules
+    dup_objects = []
+    targets = [r for r in rules if len(r["nodes"]) <= 3 and ((which in ("S", "both") and r["lhs"] == S) or (which in ("A", "both") and r["lhs"] == A))]
+    for r in targets:
+        if mode == "value":
+            pos = max(i for i, x in enumerate(rules) if x["lhs"] == r["lhs"]) + 1
+            rules.insert(rng.choice([rules.index(r) + 1, pos]), dict(lhs=r["lhs"], nodes=list(r["nodes"]), edges=list(r["edges"]), ext=list(r["ext"])))
+    if mode == "object":
+        dup_objects = [i for i, r in enumerate(rules) if any(r is x for x in targets)]
+    weights = {}
+    grid = [Fraction(1, 2), Fraction(1), Fraction(2), Fraction(3), Fraction(1, 4)]
+    for el in (T_UN, T_BIN, T_TERN, T_NULL):
+        weights[el] = gen.nested([dom] * len(elabels[el]["type"]), lambda: rng.choice(grid))
+    return dict(nlabels=[dom], elabels=elabels, start=0, rules=rules, weights=weights, recursive=False, dup_objects=dup_objects,
+                features=sorted({"duplicated_production", "dup_" + mode, "dup_" + which}))
+
 def is_recursive(spec):
     el = spec["elabels"]
     succ = {}
@@ -346,6 +392,8 @@ def run_case(spec, names, ids, method, entry, labels_mode, rng, out, violations,
     else:
         b = gen.build_hrg(spec, ids=ids, rng=rng, names=names)
         g = b.hrg
+    for ri in spec.get("dup_objects", []):      # the same HRGRule object registered twice
+        g.add_rule(b.rules[ri][0])
     cn = Canon(b)
     before = snapshot(cn, g, b)
     calls_txt = {"rule": "fggs.factorize_rule(rule, method=%r, labels=%s)" % (method, labels_mode),
@@ -462,9 +510,12 @@ def run(tier, seed):
     feats = {}
     n_sp_budget = 150 if tier == "quick" else 2500
     for i in range(n_specs):
-        k = i % 8
+        k = i % 10
         late_names = None
-        if k in (6, 7):
+        is_dup = k in (8, 9)
+        if is_dup:
+            spec = dup_rule_spec(rng)
+        elif k in (6, 7):
             spec, late_names = late_label_spec(rng)
         elif k in (0, 1, 2):
             spec = shaped_spec(rng, recursive=(k == 2 and rng.random() < 0.5))
@@ -480,10 +531,11 @@ def run(tier, seed):
             if names: spec["features"] = sorted(set(spec["features"]) | {"terminal_named_like_fresh"})
         for f in spec["features"]: feats[f] = feats.get(f, 0) + 1
         ids = ["explicit", "implicit", "mixed"][i % 3]
+        if is_dup and not spec["dup_objects"]: ids = "explicit"      # equal-by-value copies need explicit ids
         for mi, method in enumerate(METHODS):
             for entry in ("rule", "hrg", "fgg"):
                 labels_mode = ["None", "empty", "all"][(i + mi) % 3]
-                do_sp = len(out["sp"]) < n_sp_budget or late_names is not None      # always compare the sum-products of the late-label stream
+                do_sp = len(out["sp"]) < n_sp_budget or late_names is not None or is_dup   # always compare the sum-products of these streams
                 try:
                     run_case(spec, names, ids, method, entry, labels_mode, rng, out, violations, stats, do_sp)
                 except Exception as e:
